@@ -269,7 +269,7 @@ for k in range(1, maxtime + 1):
             r = abs(env[v] - eval(eqn, {}, env))
         except ZeroDivisionError:
             print('period', k, v, '=', env[v], 'reported although', eqn, 'cannot be evaluated (division by zero)'); bad = True; continue
-        lim = bound * scale * (1 + 1e-9) + 1e-12 if v in sim else 1e-9 * (1 + abs(env[v]))
+        lim = bound * scale * (1 + 1e-9) + 1e-12 if v in sim else 1e-15 * (1 + abs(env[v]))      # derived variables: the same float expression re-evaluated, equal to the last bits
         if r > lim: print('period', k, v, 'residual', r, 'limit', lim); bad = True
     for v, src in orig.Lagged:
         if env[v] != ts[src.strip()][k - 1]: print('lag', v); bad = True
